@@ -282,6 +282,55 @@ static void exactFastPacket() {
 }
 static void garbage() { frame((unsigned long)R->next() & (R->chance(1, 4) ? 0xFFFFFFFFUL : 0x1FFFFFFFUL), (int)R->below(9), rnd(8)); }
 
+
+// undamaged fast packet with exactly the given payload (no random loss, DLC 8)
+static void cleanFastPacket(unsigned long pgn, unsigned prio, unsigned src, unsigned dst, const std::vector<unsigned char> &pl, int seq) {
+  size_t nfr = pl.size() <= 6 ? 1 : 1 + (pl.size() - 6 + 6) / 7;
+  for (size_t k = 0; k < nfr; k++) {
+    std::vector<unsigned char> f(8, 0xff); f[0] = (unsigned char)(seq << 5 | (k & 31));
+    if (k == 0) { f[1] = (unsigned char)pl.size(); for (size_t j = 0; j < 6 && j < pl.size(); j++) f[2 + j] = pl[j]; }
+    else { size_t off = 6 + 7 * (k - 1); for (size_t j = 0; j < 7 && off + j < pl.size(); j++) f[1 + j] = pl[off + j]; }
+    frame(mkId(prio, pgn, src, dst), 8, f);
+  }
+}
+// Directed histories that are part of EVERY run, whatever the seed: the shapes that earlier seeded changes needed and that the
+// random grammar reaches only with some luck.
+static void directedCases() {
+  for (int devs = 1; devs <= 2; devs++) {
+    char b[160]; snprintf(b, sizeof b, "reset x 2 %d 5 1 %d 40", devs, 100000 * devs); exec(b);
+    unsigned me = N->src(devs - 1);
+    // group-function Command for 126998: one or two installation descriptions, ASCII and UCS-2, each of length 1, 35, 69, 70, 71, 100
+    int lens[] = {1, 35, 69, 70, 71, 100};
+    for (int a = 0; a < 6; a++) for (int kind = 0; kind < 4; kind++) {
+      std::vector<unsigned char> pl = {1, (unsigned char)(126998UL & 0xff), (unsigned char)((126998UL >> 8) & 0xff), (unsigned char)(126998UL >> 16), 0xF8, 2};
+      for (int q = 0; q < 2; q++) {
+        int n = q == 0 ? lens[a] : 5; bool ucs = (kind >> q) & 1;
+        pl.push_back((unsigned char)(q + 1));
+        if (ucs) { if (n > 50) n = 50; pl.push_back((unsigned char)(2 + 2 * n)); pl.push_back(0); for (int i = 0; i < n; i++) { pl.push_back((unsigned char)('A' + q)); pl.push_back(0); } }
+        else { pl.push_back((unsigned char)(2 + n)); pl.push_back(1); for (int i = 0; i < n; i++) pl.push_back((unsigned char)('A' + q)); }
+      }
+      if (pl.size() > 223) pl.resize(223);
+      cleanFastPacket(126208UL, 3, 40, me, pl, (a + kind) & 7);
+    }
+    // group-function Request for 126998 with match strings of the same lengths
+    for (int a = 0; a < 6; a++) {
+      std::vector<unsigned char> pl = {0, (unsigned char)(126998UL & 0xff), (unsigned char)((126998UL >> 8) & 0xff), (unsigned char)(126998UL >> 16), 0xff, 0xff, 0xff, 0xff, 0xff, 0xff, 1, 1};
+      pl.push_back((unsigned char)(2 + lens[a])); pl.push_back(1); for (int i = 0; i < lens[a]; i++) pl.push_back('Q');
+      cleanFastPacket(126208UL, 3, 41, me, pl, a);
+    }
+    // complete fast packets announcing 223..255 bytes with all 32 frames
+    for (int L = 223; L <= 255; L += 8) { std::vector<unsigned char> pl(223, 0x5a); int seq = L & 7;
+      for (int k = 0; k < 32; k++) { std::vector<unsigned char> f(8, 0x5a); f[0] = (unsigned char)(seq << 5 | k); if (k == 0) f[1] = (unsigned char)L; frame(mkId(6, 129029UL, 42, 255), 8, f); } }
+    // transport-protocol RTS with packet-count byte 0, 1 and 255 followed by data packets; BAM with the node's own NAME as commanded address
+    for (int pk : {0, 1, 255}) { std::vector<unsigned char> cm = {16, 20, 0, (unsigned char)pk, 0xff, 0x00, 0xef, 0x01}; frame(mkId(7, 60416UL, 43, me), 8, cm);
+      for (int k = 1; k <= 3; k++) { std::vector<unsigned char> dt(8, 0x11); dt[0] = (unsigned char)k; frame(mkId(7, 60160UL, 43, me), 8, dt); } }
+    { std::vector<unsigned char> pl = le(N->name(devs - 1), 8); pl.push_back(77); bamTo(44, 65240UL, pl);
+      frame(mkId(6, 59904UL, 45, N->src(devs - 1)), 3, le(126996UL, 3)); exec("t 30"); frame(mkId(6, 59904UL, 45, 255), 3, le(126464UL, 3)); exec("t 300"); }
+    // a first message from an unknown source, then silence, then again (device list name-request pacing)
+    frame(mkId(2, 127250UL, 90, 255), 8, rnd(8)); exec("t 61000"); frame(mkId(2, 127250UL, 90, 255), 8, rnd(8)); exec("t 1500");
+  }
+}
+
 static void oneCase() {
   int md = R->chance(1, 5) ? (int)R->below(5) : 2; int devs = R->chance(1, 2) ? 1 : (int)R->range(1, 9);
   uint64_t origin = R->chance(1, 3) ? 0xFFFFFFFFULL - R->below(5000) : R->below(1000000);
@@ -321,6 +370,7 @@ int main(int argc, char **argv) {
   Rng rr(C.seed * 7919 + 13); R = &rr;
   int ncases = C.thorough ? 1500 : 150;
   if (getenv("N2K_FUZZ_CASES")) ncases = atoi(getenv("N2K_FUZZ_CASES"));   // reduced budget for the run under valgrind memcheck
+  directedCases();
   for (int i = 0; i < ncases; i++) oneCase();
   endCase();
   C.sample("grammar: TP sessions (RTS/BAM/DT/CTS/EndAck/Abort, wrong counts and sequence numbers, address loss in the middle), group functions (all codes, pair counts 0..255, truncated), ISO request/ack/commanded address/claims (NAME 0, all-ones), 126996/126998/126464 of all sizes, damaged fast packets, random identifiers and DLC 0..8, clock jumps");
